@@ -1548,6 +1548,11 @@ class Context:
             )
         except InvalidSignature:
             raise AlertDecryptError
+        except (TypeError, ValueError):
+            # the signature algorithm cannot be used with the certificate's key
+            raise AlertIllegalParameter(
+                "CertificateVerify algorithm does not match the certificate"
+            )
 
     def _client_send_hello(self, output_buf: Buffer) -> None:
         key_share: list[KeyShareEntry] = []
